@@ -336,11 +336,55 @@ def canon_json(j):
 DOCUMENTED = ("OrAndAndOnSameLevel", "NestedSearchFieldException", "ObjectSearchFieldException")
 
 
+_spelling = [0]
+
+
+def _spell_names(names):
+    """the same collection of names under another python spelling (the normalisers accept "an iterable"): list, tuple,
+    set, keys view, and the one-shot ones -- an iterator, a generator (what `SchemaAnalyzer.sub_fields()` and
+    `.object_fields()` return). A specification read twice sees a one-shot iterable empty the second time
+    (seeded C05-G, C07-G)."""
+    _spelling[0] += 1
+    k = _spelling[0] % 7
+    names = list(names)
+    if k == 1:
+        return tuple(names)
+    if k == 2:
+        return set(names)
+    if k == 3:
+        return dict.fromkeys(names).keys()
+    if k == 4:
+        return iter(names)
+    if k == 5:
+        return (n for n in names)
+    if k == 6:
+        return map(str, names)
+    return names
+
+
+def python_spelling(cfg):
+    """the keyword arguments of the builder for `cfg`, the collections of names spelled in various equivalent ways.
+    `not_analyzed_fields` is documented as a list and stays one."""
+    def nested(spec):
+        if isinstance(spec, dict):
+            return {k: nested(v) for k, v in spec.items()}
+        if isinstance(spec, list):
+            return _spell_names(spec)
+        return spec
+    out = dict(cfg)
+    for key in ("object_fields", "sub_fields"):
+        if isinstance(out.get(key), list):
+            out[key] = _spell_names(out[key])
+    if isinstance(out.get("nested_fields"), dict):
+        out["nested_fields"] = nested(out["nested_fields"])
+    return out
+
+
 def build(cfg, tree_obj, builder=None):
     """-> ({"ok": canonical json} | {"err": [class, message]}, raw json or None)"""
     I = common.impl()
     try:
-        b = builder or I.es.ElasticsearchQueryBuilder(**cfg)
+        b = builder or I.es.ElasticsearchQueryBuilder(**python_spelling(cfg))
         j = b(tree_obj)
     except Exception as e:  # noqa
         name = type(e).__name__
